@@ -512,7 +512,60 @@ def generate():
         if init_tuple.count(recv) != 1:
             raise Unsupported("__init__ parameter %s is not one slot of _options" % recv)
         body += "/-- slot of `_options` that receives `opt(depth=...)` -/\n"
-        body += "def initDepthIndex : Nat := %d\n\n" % init_tuple.index(recv)
+        body += "def initDepthIndex : Nat := %d\n" % init_tuple.index(recv)
+        # every way opt() returns: the final `Logger(core, ..., depth, ...)` or a delegation `self.opt(k=v, ...)`
+        # (e.g. from the branch of a deprecated spelling); what each hands on as depth
+        optf = optm[0]
+        kwd = dict(zip([a.arg for a in optf.args.kwonlyargs], optf.args.kw_defaults))
+        dd = kwd.get("depth")
+        if not (isinstance(dd, ast.Constant) and type(dd.value) is int):
+            raise Unsupported("default of opt(depth=)")
+        self_name = optf.args.args[0].arg
+        paths = []
+
+        def walk_returns(stmts, cond):
+            for st in stmts:
+                if isinstance(st, (ast.FunctionDef, ast.AsyncFunctionDef, ast.ClassDef)):
+                    raise Unsupported("opt(): nested definition")
+                if isinstance(st, ast.Return):
+                    v = st.value
+                    if isinstance(v, ast.Call) and _src(v.func) == "Logger":
+                        a_ = v.args[pos[0]] if len(v.args) > pos[0] else None
+                        if isinstance(a_, ast.Name) and a_.id == "depth":
+                            fwd = ".param"
+                        elif isinstance(a_, ast.Constant) and type(a_.value) is int:
+                            fwd = "(.const (%d : Int))" % a_.value
+                        else:
+                            raise Unsupported("opt(): depth argument of Logger(...)")
+                    elif isinstance(v, ast.Call) and _src(v.func) == self_name + ".opt" and not v.args \
+                            and all(k.arg is not None for k in v.keywords):
+                        kws = {k.arg: k.value for k in v.keywords}
+                        if "depth" not in kws:
+                            fwd = ".default"
+                        elif isinstance(kws["depth"], ast.Name) and kws["depth"].id == "depth":
+                            fwd = ".param"
+                        elif isinstance(kws["depth"], ast.Constant) and type(kws["depth"].value) is int:
+                            fwd = "(.const (%d : Int))" % kws["depth"].value
+                        else:
+                            raise Unsupported("opt(): depth keyword of the delegation")
+                    else:
+                        raise Unsupported("opt(): return " + (_src(v) if v is not None else "None"))
+                    paths.append((cond or "otherwise", fwd))
+                elif isinstance(st, ast.If):
+                    walk_returns(st.body, (cond + " and " if cond else "") + _src(st.test))
+                    walk_returns(st.orelse, (cond + " and " if cond else "") + "not (" + _src(st.test) + ")")
+                elif isinstance(st, (ast.For, ast.While, ast.Try, ast.With, ast.Match)) and \
+                        any(isinstance(n, ast.Return) for n in ast.walk(st)):
+                    raise Unsupported("opt(): return inside " + type(st).__name__)
+
+        walk_returns(_body(optf), "")
+        if not paths:
+            raise Unsupported("opt() never returns a logger")
+        body += "/-- default of `opt(depth=...)` -/\n"
+        body += "def optDepthDefault : Int := (%d : Int)\n" % dd.value
+        body += "/-- every return path of `opt()` (condition, what it hands on as depth) -/\n"
+        body += "def optPaths : List (Py.Str × DepthFwd) := [\n" + ",\n".join(
+            "  (%s, %s)" % (lean_chars(c), f) for c, f in paths) + "]\n\n"
 
         # ------------------------------------------------------------------ _log
         logfn = [f for f in cls.body if isinstance(f, ast.FunctionDef) and f.name == "_log"]
